@@ -131,11 +131,11 @@ def obligations(tier):
         maxc = 3
     for nm, nt in cfgs:
         perms = [p for p in itertools.permutations(range(nm))]
-        use = perms[-1:] if nm < 3 else ([perms[-1], perms[3]] if q else perms[1:] if nm == 3 else [perms[-1], perms[9], perms[14]])
+        use = perms[-1:] if nm < 3 else ([perms[-1], perms[3]] if (q or nt == 3) else perms[1:] if nm == 3 else [perms[-1], perms[9]])
         for counts in itertools.product(range(maxc + 1), repeat=nt):
-            if nm == 4 and sum(counts) > 4:
+            if nm == 4 and sum(counts) > 3:
                 continue
-            if nt == 3 and sum(counts) > (3 if q else 5):
+            if nt == 3 and (sum(counts) > (3 if q else 4) or max(counts) > 2):
                 continue
             for pi, perm in enumerate(use):
                 if pi > 0 and sum(counts) < 2:
@@ -191,6 +191,6 @@ ASSUMPTIONS = [
 
 BOUNDS = {
     "quick": "1..3 members, 2 topics, 0..2 partitions per topic, listing order vs 1-2 other permutations; identical subscriptions with (3,2) partitions",
-    "thorough": "1..4 members, 2..3 topics, 0..3 partitions per topic (<=5 in total with 3 topics, <=4 with 4 members), all permutations for 3 members",
+    "thorough": "1..4 members, 2..3 topics, 0..3 partitions per topic (with 3 topics: <=2 each, <=4 in total, 2 listing orders; with 4 members: <=3 in total), all permutations for 3 members x 2 topics",
     "outside": ">4 members, >3 topics, topic names needing non-ASCII (write_short_ascii)",
 }
